@@ -179,7 +179,7 @@ func (msg RtmpMsg) IsVideoKeySeqHeader() bool {
 }
 
 func (msg RtmpMsg) IsAvcKeyNalu() bool {
-	return msg.Header.MsgTypeId == RtmpTypeIdVideo && msg.Payload[0] == RtmpAvcKeyFrame && msg.Payload[1] == RtmpAvcPacketTypeNalu
+	return msg.Header.MsgTypeId == RtmpTypeIdVideo && len(msg.Payload) >= 2 && msg.Payload[0] == RtmpAvcKeyFrame && msg.Payload[1] == RtmpAvcPacketTypeNalu
 }
 
 func (msg RtmpMsg) IsHevcKeyNalu() bool {
